@@ -29,7 +29,17 @@ FILES = {'F0': [], 'Fa': ['a'], 'Fab': ['a', 'b'], 'FA': ['A'], 'Fb': ['b']}
 def pool(tier, depth):
     if depth >= 4 or (tier == 'quick' and depth >= 3):
         return ['a', 'A', 'b']
-    return ['a', 'A', 'b', '', 'a b', 'ä']
+    return ['a', 'A', 'b', '', 'a b', 'ä', '\ud800x']       # the last one: JSON can carry it, UTF-8 cannot encode it
+
+
+def _valid(name):
+    if name == '':
+        return False
+    try:
+        name.encode('utf-8')
+        return True
+    except UnicodeError:
+        return False
 
 
 def alphabet(tier, depth):
@@ -148,16 +158,16 @@ def run_seq(r, case):
                 rq = w.request('add', name=arg, cmd='sleep 60', start=(op == 'add+start'),
                                options={'graceful_timeout': 0.1})
                 ok = rq.ok()
-                expect_ok = arg.lower() not in ref and arg != ''
+                expect_ok = arg.lower() not in ref and _valid(arg)
                 if ok:
                     accepted_change = True
-                if ok and arg != '' and arg.lower() not in ref:
+                if ok and _valid(arg) and arg.lower() not in ref:
                     ref[arg.lower()] = arg
                     by_command.add(arg.lower())
-                r.check('C15.add_ok_means_exists', not ok or (arg.lower() in ref and arg != ''),
+                r.check('C15.add_ok_means_exists', not ok or (arg.lower() in ref and _valid(arg)),
                         lambda: desc() + ': add answered ok but no such watcher can exist (empty name): %r' % rq.reply(),
                         where + ('/empty-name' if arg == '' else ''), case, fp='add-ok-' + ('empty' if arg == '' else 'x'))
-                r.check('C15.unique_ignoring_case', ok == expect_ok or arg == '',
+                r.check('C15.unique_ignoring_case', ok == expect_ok or not _valid(arg),
                         lambda: desc() + ': add %r answered %r, existing names %s' % (arg, rq.reply(), sorted(ref.values())),
                         where, case, fp='add-unique', nontrivial=arg.lower() in ref)
             elif op in ('rm', 'rm-nostop'):
